@@ -2,12 +2,13 @@
    [statusE] (theories/Compare.v) models SympyBackend.compare (expand the difference; 0 = equal, a non-zero integer
    literal = unequal, else ambiguous) by a polynomial normal form; evalT is the standard rational reading.
    Proved: the verdicts are SOUND for every pair of expressions and every assignment, the failure of a constraint
-   evaluation can only come from a 'violated' verdict, and integer literals are decided completely.
+   evaluation can only come from a 'violated' verdict, and integer literals -- more generally any two closed
+   arithmetic terms, whatever shape they are written in -- are decided completely, by value.
    Exercised by the stream size-mismatch (partial): that the constraints preprocessing generates are the right
    ones for every re-declared port (constant, repeated symbol, compound over parameters and locals), i.e. that
    mismatch at the port <=> BartiqCompilationError, against the bottom-up denotation. *)
 From Coq Require Import List String QArith ZArith.
-From Bq Require Import Expr StdSem RepModel Routine Compare Compile CompareFacts Preprocess PortVarFacts.
+From Bq Require Import Expr StdSem RepModel Routine Compare Compile CompareFacts CompareClosedFacts Preprocess PortVarFacts.
 Import ListNotations.
 Open Scope Q_scope.
 
@@ -39,6 +40,26 @@ Print Assumptions C06_satisfied_sound.
 Theorem C06_integers_decided : forall a b, statusE (EZ a) (EZ b) = if Z.eqb a b then CSatisfied else CViolated.
 Proof. exact statusE_integers. Qed.
 Print Assumptions C06_integers_decided.
+
+(* ... and so are two closed arithmetic terms of any shape (numbers under + - * / // % ** max min floor ceiling): they are
+   compared BY VALUE (cfold is the value the backend works out on the spot), never left undecided when the sizes are integers *)
+Theorem C06_closed_terms_compared_by_value : forall l r a b,
+  cfold l = Some a -> cfold r = Some b ->
+  statusE l r = if Qeq_bool a b then CSatisfied
+                else match q_int (a - b) with Some _ => CViolated | None => CInconclusive end.
+Proof. exact statusE_closed. Qed.
+Print Assumptions C06_closed_terms_compared_by_value.
+
+Theorem C06_closed_integer_sizes_decided : forall l r (x y : Z),
+  cfold l = Some (inject_Z x) -> cfold r = Some (inject_Z y) ->
+  statusE l r = if Z.eqb x y then CSatisfied else CViolated.
+Proof. exact closed_integer_sizes_decided. Qed.
+Print Assumptions C06_closed_integer_sizes_decided.
+
+(* the folded value is the value: what cfold returns is what every assignment gives the term *)
+Theorem C06_folded_value_is_the_value : forall rho e q, cfold e = Some q -> evalT rho e = q.
+Proof. exact cfold_sound. Qed.
+Print Assumptions C06_folded_value_is_the_value.
 
 (* non-vacuity: a symbolic consistent pair, a symbolic contradiction, an undecided pair *)
 Example C06_nonvacuous :
